@@ -41,6 +41,7 @@ type Scenario struct {
 	Clients  []Client       `json:"clients"`
 	Hist     []HistStmt     `json:"hist,omitempty"` // history with intended effects (C11/C12); Clients[0] is derived from it
 	L        *LimitCase     `json:"limit_case,omitempty"` // C08 grid point
+	K        *PinCase       `json:"pin_case,omitempty"`   // C18 key-pinning clause
 	Faults   []Fault        `json:"faults,omitempty"`
 	Schedule []int          `json:"schedule,omitempty"`
 	Topology string         `json:"topology,omitempty"`
